@@ -83,6 +83,10 @@ func (p *DecodeProvider) Run(ctx context.Context, deps core.ProviderDeps) (err e
 	if source == multipassReader {
 		p.Log.Info("Ammo data source can't sought, so will be read only once")
 	}
+	progressTracker, _ := multipassReader.(*ioutil2.MultiPassReader)
+	if progressTracker != nil {
+		progressTracker.TrackProgress()
+	}
 	decoder, err := p.newDecoder(deps, multipassReader)
 
 	if err != nil {
@@ -98,6 +102,9 @@ func (p *DecodeProvider) Run(ctx context.Context, deps core.ProviderDeps) (err e
 		}
 		if err != nil {
 			return errors.WithMessage(err, fmt.Sprintf("ammo #%v decode failed", ammoNum))
+		}
+		if progressTracker != nil {
+			progressTracker.Progress()
 		}
 		select {
 		case p.OutQueue <- ammo:
